@@ -106,7 +106,14 @@ RE_OPS = {
     'star_accepts': lambda r, o: (lambda u: (u.accepts([]), u.accepts(W1), s_fa(u.to_epsilon_nfa())))(r.kleene_star()),
     'tree': lambda r, o: r.get_tree_str(), 'n_symbols': lambda r, o: (r.get_number_symbols(), r.get_number_operators()),
 }
+def _cfg_from_own_sets(g, o):
+    """a second grammar built from the variable / terminal sets of the first one (plus one rule): the first one must not change"""
+    from pyformlang.cfg import CFG, Variable, Terminal, Production
+    top = Variable('#TOP'); extra = Production(top, [Terminal('#t'), g.start_symbol] if g.start_symbol is not None else [Terminal('#t')])
+    h = CFG(g.variables, g.terminals, top, set(g.productions) | {extra})
+    return s_cfg(h)
 CFG_OPS = {
+    'new_grammar_from_own_sets': _cfg_from_own_sets,
     'remove_epsilon.remove_useless': lambda g, o: s_cfg(g.remove_epsilon().remove_useless_symbols()),
     'remove_epsilon.is_empty.generating': lambda g, o: (lambda r: (r.is_empty(), tuple(sorted(map(repr, r.get_generating_symbols()))), tuple(sorted(map(repr, r.get_nullable_symbols())))))(g.remove_epsilon()),
     'eliminate_unit.remove_useless': lambda g, o: s_cfg(g.eliminate_unit_productions().remove_useless_symbols()),
@@ -134,8 +141,15 @@ def _cnf_tree(g):
 def _pda_grow(p, o):
     for k in range(5): p.add_transition(f'#g{k}', 'a', f'#G{k}', f'#g{(k + 1) % 5}', [f'#G{(k + 2) % 5}'])
     return 'mutated'
+def _pda_dict_mutate(p, o):
+    d = p.to_dict()
+    out = tuple(sorted(((repr(k), tuple(sorted(map(repr, v)))) for k, v in d.items())))
+    for k in list(d):
+        try: d[k].clear()
+        except Exception: pass
+    d.clear(); return out
 PDA_OPS = {
-    'SELF.grow': _pda_grow,
+    'SELF.grow': _pda_grow, 'to_dict+mutate': _pda_dict_mutate,
     'to_final_state+mutate': lambda p, o: (lambda r: (s_pda(r), mutate_pda(r))[0])(p.to_final_state()),
     'to_empty_stack+mutate': lambda p, o: (lambda r: (s_pda(r), mutate_pda(r))[0])(p.to_empty_stack()),
     'to_cfg': lambda p, o: s_cfg(p.to_cfg()), 'to_cfg_twice': lambda p, o: (s_cfg(p.to_cfg()), s_cfg(o.to_cfg())),
@@ -171,7 +185,7 @@ def maker(kind, d):
             order = int(hashlib.sha1(json.dumps(d, sort_keys=True).encode()).hexdigest(), 16)
             if order % 3 == 1: prods.reverse()
             return CFG(start_symbol=Variable(g[0][1]), productions=prods if order % 3 else set(prods))      # list in two orders, or a set
-        return mk_cfg, CFG_OPS, lambda g: C.extract(g)
+        return mk_cfg, CFG_OPS, lambda g: (C.extract(g), sorted(map(repr, g.variables)), sorted(map(repr, g.terminals)))          # productions, and the registered alphabets
     if kind == 'PDA': return lambda: P.build(P.from_json(d)), PDA_OPS, lambda p: P.extract(p)
     if kind == 'FST': return lambda: X.build(X.from_json(d)), FST_OPS, lambda f: X.extract(f)
     if kind == 'IG': return lambda: IG.build([tuple(r) for r in d]), IG_OPS, lambda g: (sorted(map(repr, g.rules.rules)), sorted(map(repr, g.rules.consumption_rules.items())))
